@@ -29,7 +29,8 @@ from ..domains import Domain, is_mapping
 from . import common
 
 PROP = "C08"
-SHRINK = [["base"], ["txns", "*"]]
+SHRINK = [["base"], ["txns", "*"], ["rounds"], ["rounds", "*"],
+          ["rounds", "*", "*", 1]]
 BUDGET = {"quick": {"plain": 14000, "max_s": 100},
           "thorough": {"plain": 400000, "max_s": 1500}}
 RULE = ("one run = one committed base tree + 2-3 concurrent short "
@@ -149,15 +150,46 @@ def plan(rng, tier):
             for _ in range(n)]
     order = list(range(n))
     rng.shuffle(order)
-    return {"cfg": cfg, "base": base, "txns": txns, "order": order,
-            "commit_every": rng.choice([0, 0, 1, 3]),
-            "evict": rng.random() < 0.3,
-            # bit i: client i is "cold" -- nothing but its own operations
-            # ever touches its nodes (the monitor looks at a shadow)
-            "cold": rng.randrange(8) if rng.random() < 0.6 else 0}
+    rounds = None
+    if rng.random() < 0.35:
+        # a longer concurrent history: several rounds; in every round some
+        # clients run one more transaction on whatever snapshot they have
+        # (optionally synchronised first) and commit in a planned order, so
+        # that snapshots several commits old, warm caches invalidated in part
+        # and retries after a conflict occur
+        rounds = []
+        for _ in range(rng.choice([2, 2, 3, 4])):
+            acts = []
+            for i in range(n):
+                if rng.random() < 0.75:
+                    acts.append([i, _txn(rng, g, dom.nkeys, dom.nvals,
+                                         mapping, focus),
+                                 rng.random() < 0.5,
+                                 rng.choice(["none", "none", "minimize",
+                                             "incrgc"])])
+            rng.shuffle(acts)
+            rounds.append(acts)
+    plan_ = {"cfg": cfg, "base": base, "txns": txns, "order": order,
+             "commit_every": rng.choice([0, 0, 1, 3]),
+             "evict": rng.random() < 0.3,
+             # bit i: client i is "cold" -- nothing but its own operations
+             # ever touches its nodes (the monitor looks at a shadow)
+             "cold": rng.randrange(8) if rng.random() < 0.6 else 0}
+    if rounds is not None:
+        plan_["rounds"] = rounds
+    return plan_
 
 
 def simplify(plan):
+    if plan.get("rounds"):
+        for r in range(len(plan["rounds"])):
+            for a in range(len(plan["rounds"][r])):
+                act = plan["rounds"][r][a]
+                if act[2] or act[3] != "none":
+                    p = copy.deepcopy(plan)
+                    p["rounds"][r][a][2] = False
+                    p["rounds"][r][a][3] = "none"
+                    yield p
     if plan.get("cold"):
         p = copy.deepcopy(plan)
         p["cold"] = 0
@@ -498,8 +530,161 @@ def _one_order(plan, order, ctx, tag):
                      tuple(c["class"] for c in clients), tuple(outcomes)))
 
 
+def _long_run(plan, ctx):
+    """several rounds of concurrent transactions (see plan()): client i works
+    on the snapshot B_i it has; oracle for its commit with S the stored
+    contents right before: conflict (S unchanged; only if something was
+    committed since its snapshot), or T_i(S), or S (+) D_i with D_i the net
+    change of T_i on B_i and disjoint from the keys changed between B_i and
+    S."""
+    from ..world import (SimStorage, SimConnection, ConflictError,
+                         ReadConflictError)
+    cfg = plan["cfg"]
+    dom = Domain(cfg["dom"])
+    dom.set_node_sizes(cfg.get("leaf"), cfg.get("internal"))
+    impl, kind = cfg["impl"], cfg["kind"]
+    mapping = is_mapping(kind)
+    st = SimStorage(cfg.get("protocol", 3))
+    c0 = SimConnection(st, impl)
+    t0 = dom.new(kind, impl)
+    oid = c0.add(t0)
+    bm = ops.Model(dom, kind)
+    every = plan.get("commit_every", 0)
+    for i, op in enumerate(plan["base"]):
+        bm.apply(op)
+        ops.apply(t0, op, dom, impl, kind)
+        if every and i % every == 0:
+            c0.commit()
+    c0.commit()
+    if c0.hazards:
+        ctx.probe("abandoned:known-C04-inline-duplicate")
+        raise Precondition("known C04 finding: inline-duplicate")
+    S = dict(bm.d)
+    if not ops.same_value(ops.listing(t0, mapping),
+                          _listing_of(dom, S, mapping)):
+        raise Precondition("base differs from model")
+    hist = {st.tid: dict(S)}        # contents as of every tid
+    n = len(plan["txns"])
+    conns = [SimConnection(st, impl) for _ in range(n)]
+    trees = [c.get(oid) for c in conns]
+    outcomes = []
+    classes = []
+    shape0 = None
+    for rno, acts in enumerate(plan["rounds"]):
+        ran = []
+        for act in acts:
+            i, txn, sync, sweep = act[0], act[1], act[2], act[3]
+            if i >= n:
+                continue
+            conn = conns[i]
+            if sweep != "none":
+                conn.sweep(sweep, 2)
+            if sync:
+                conn.begin()
+            Bi = hist[conn.snapshot]
+            # a view of the client's snapshot for the monitor and for
+            # aiming the symbolic operations
+            vc = SimConnection(st, impl)
+            vc.snapshot = conn.snapshot
+            view = vc.get(oid)
+            if not ops.same_value(ops.listing(view, mapping),
+                                  _listing_of(dom, Bi, mapping)):
+                raise Violation(
+                    {"oracle": "occ-outcome", "impl": impl, "kind": kind,
+                     "what": "snapshot-view"},
+                    "round %d client %d: a fresh connection at snapshot %d "
+                    "lists %r, the contents committed then were %r" % (
+                        rno, i, conn.snapshot,
+                        ops.listing(view, mapping)[:30],
+                        _listing_of(dom, Bi, mapping)[:30]))
+            vw = walker.walk(view, dom, mapping)
+            if shape0 is None:
+                shape0 = vw.shape
+                ctx.shape(vw.shape)
+            concrete = _resolve_symbolic(txn, vw, dom, mapping, Bi)
+            cold = (plan.get("cold", 0) >> i) & 1
+            shadow = view if cold else None
+            who = "r%d-t%d" % (rno, i)
+            trans = _run_txn(conn, trees[i], concrete, dom, cfg, ctx, who,
+                             shadow)
+            m = ops.Model(dom, kind)
+            m.d = dict(Bi)
+            for op in concrete:
+                _total(m, op)
+            ran.append({"i": i, "ops": concrete, "Bi": Bi,
+                        "delta": _diff(Bi, m.d), "snap": conn.snapshot,
+                        "class": _struct_class(trans, concrete)})
+        seen = set()
+        for pos, cl in enumerate(ran):
+            i = cl["i"]
+            if i in seen:
+                continue        # one transaction per client and round
+            seen.add(i)
+            conn = conns[i]
+            sigbase = {"oracle": "occ-outcome", "impl": impl, "kind": kind,
+                       "pos": "long"}
+            m = ops.Model(dom, kind)
+            m.d = dict(S)
+            for op in cl["ops"]:
+                _total(m, op)
+            serial = m.d
+            stale = st.tid != cl["snap"]
+            changed_since = set(_diff(cl["Bi"], S))
+            merged = None
+            if not (set(cl["delta"]) & changed_since):
+                merged = _apply_diff(S, cl["delta"])
+            nres0 = len(st.resolver_log)
+            try:
+                conn.commit()
+                out = "committed"
+            except ReadConflictError:
+                out = "read-conflict"
+            except ConflictError:
+                out = "write-conflict"
+            if conn.hazards:
+                ctx.probe("abandoned:known-C04-inline-duplicate")
+                raise Precondition("known C04 finding: inline-duplicate")
+            resolved = len(st.resolver_log) > nres0
+            if out == "committed" and resolved:
+                out = "resolved"
+            ctx.ev("long", rno, "commit", i, out)
+            if stale:
+                ctx.fault("concurrent-commit")
+                ctx.probe("long-stale-by-%d" % min(st.tid - cl["snap"], 4))
+            who = "round %d: client %d (snapshot %d, stored %d) %s" % (
+                rno, i, cl["snap"], st.tid, out)
+            if out.endswith("conflict"):
+                if not stale:
+                    raise Violation(dict(sigbase, what="first-commit-conflict"),
+                                    who + ": nothing was committed since its "
+                                    "snapshot, yet it conflicted")
+                allowed = [("unchanged", S)]
+            else:
+                allowed = [("serial", serial)]
+                if merged is not None:
+                    allowed.append(("merge", merged))
+            label, d = _fresh_check(st, oid, dom, cfg, allowed, who, ctx,
+                                    sigbase)
+            if stale and label in ("serial", "merge"):
+                ctx.probe("matched-" + label)
+            S = dict(d)
+            hist[st.tid] = dict(S)
+            # (a conflicting commit aborted and moved the client's snapshot
+            # to the current tid, which is in hist as well)
+            outcomes.append(out)
+            classes.append(cl["class"])
+            ctx.probe("outcome-long-" + out)
+    ctx.interleaving(("long", tuple(outcomes), tuple(classes)))
+    if any(o != "committed" for o in outcomes):
+        ctx.nontriv((impl, kind, shape0, "long", tuple(classes),
+                     tuple(outcomes)))
+
+
 def execute(plan, ctx):
     from .. import env
     env.activate(ctx.variant)
+    if plan.get("rounds"):
+        _long_run(plan, ctx)
+        return
     _one_order(plan, plan["order"], ctx, "fwd")
     _one_order(plan, list(reversed(plan["order"])), ctx, "rev")
